@@ -35,10 +35,6 @@ func H_C10_rewrite() {
 		bodies[i] = vxrt.Text("body", vxrt.Len("body-len", 0, n))
 		vxrt.Assume(noCRAtEOL(bodies[i]))
 		vxrt.Assume(noTerminatorLine(bodies[i]))
-		if vxrt.Param("known_K2", 1) == 1 {
-			// a body line that looks like an entry header is known finding K2's class
-			vxrt.Assume(vxrt.Not(hasHeaderLikeLine(bodies[i])))
-		}
 		for j := 0; j < i; j++ {
 			vxrt.Assume(differs(ids[i], ids[j])) // well-formed file: ids pairwise distinct
 		}
@@ -178,4 +174,78 @@ func hasHeaderLikeLine(body string) bool {
 		found = vxrt.Or(found, vxrt.And(startOK, vxrt.Eq(body[p:p+5], "[Test")))
 	}
 	return found
+}
+
+// H_C10_bodies: one entry with a line-structured body (see structText) next to
+// a second entry that makes Clean rewrite the file (by sorting or pruning);
+// the structured entry must replay exactly what it held.
+func H_C10_bodies() {
+	vxrt.EnvFixed("NO_COLOR", "1")
+	dir := vxrt.Dir()
+	path := dir + "/f.snap"
+	var body string
+	if vxrt.Bool("header-like-line") {
+		// a body line shaped like an entry header (but not the header of an entry of this file,
+		// which is known finding K2's class)
+		c := vxrt.Text("hdr-letter", 1)
+		vxrt.Assume(vxrt.And(vxrt.And(c[0] >= 'A', c[0] <= 'Z'), vxrt.And(c[0] != 'A', c[0] != 'B')))
+		body = "a\n[Test" + c + " - 1]\nb"
+	} else {
+		body = structText("body", vxrt.Param("lines", 2))
+	}
+	vxrt.Assume(noTerminatorLine(body))
+	other := frame("TestB - 1", "x")
+	mine := frame("TestA - 1", body)
+	reg := map[string]map[string]int{path: {"TestA": 1}}
+	update, sortOpt := false, false
+	switch vxrt.Choice("rewrite-reason", 3) {
+	case 0: // pruning: TestB is stale, clean mode
+		writeFile(path, other+mine)
+		update = true
+	case 1: // sorting: both live, unsorted
+		writeFile(path, other+mine)
+		reg[path]["TestB"] = 1
+		sortOpt = true
+	default: // pruning with the stale entry after
+		writeFile(path, mine+other)
+		update = true
+	}
+	stamp := vxrt.FSStamp()
+	_, err := examineSnaps(reg, []string{path}, "", 1, update, sortOpt)
+	vxrt.Assert(err == nil && vxrt.FSStamp() != stamp, "C10:file-rewritten")
+	got, _, err := getPrevSnapshot("[TestA - 1]", path)
+	vxrt.Assert(err == nil, "C10:survivor-present")
+	vxrt.Assert(vxrt.Eq(got, body), "C10:survivor-value-unchanged")
+	want := mine
+	if sortOpt {
+		want = mine + other
+	}
+	vxrt.Assert(vxrt.Eq(readFile(path), want), "C10:no-duplicate-no-residue")
+}
+
+// H_C10_natural: two live entries of one test with a one-digit and a two-digit
+// ordinal (digits symbolic), in either order, sort requested: the file ends up
+// in numeric order of the ordinals and is written only if it was not.
+func H_C10_natural() {
+	vxrt.EnvFixed("NO_COLOR", "1")
+	dir := vxrt.Dir()
+	path := dir + "/f.snap"
+	d1 := vxrt.Text("one-digit", 1)
+	d2 := vxrt.Text("two-digits", 2)
+	vxrt.Assume(vxrt.And(d1[0] >= '1', d1[0] <= '9'))
+	vxrt.Assume(vxrt.And(vxrt.And(d2[0] >= '1', d2[0] <= '9'), vxrt.And(d2[1] >= '0', d2[1] <= '9')))
+	small := frame("Testa - "+d1, "x")
+	big := frame("Testa - "+d2, "y")
+	bigFirst := vxrt.Bool("two-digit-ordinal-first")
+	if bigFirst {
+		writeFile(path, big+small)
+	} else {
+		writeFile(path, small+big)
+	}
+	reg := map[string]map[string]int{path: {"Testa": 99}}
+	stamp := vxrt.FSStamp()
+	obsolete, err := examineSnaps(reg, []string{path}, "", 1, false, true)
+	vxrt.Assert(err == nil && len(obsolete) == 0, "C10:examine-succeeds")
+	vxrt.Assert(vxrt.Eq(readFile(path), small+big), "C10:sorted-in-natural-order")
+	vxrt.Assert((vxrt.FSStamp() != stamp) == bigFirst, "C10:written-only-if-unsorted")
 }
